@@ -21,7 +21,7 @@ ASSUMPTIONS = [
     'reference targets are structural paths of the merged config; paths that would traverse *through* another reference are not generated (the statement does not define them)',
 ]
 TIERS = {
-    'quick': {'runs': 2600, 'wall_cap': 70, 'chunk': 24, 'min_budget': 40, 'min_each': 20},
+    'quick': {'runs': 4500, 'wall_cap': 75, 'chunk': 24, 'min_budget': 40, 'min_each': 20},
     'thorough': {'runs': 120000, 'wall_cap': 900, 'chunk': 64, 'min_budget': 120, 'min_each': 40},
 }
 BUDGET = 5_000_000
